@@ -765,6 +765,24 @@ pub fn run_case(tier: &str, seed: u64, idx: u64) -> CaseOut {
                 }
             }
         }
+        // runs of damaged bytes (a zeroed or overwritten sector): they may cross block, fragment and
+        // footer boundaries, which no single-byte mutation does
+        if slice == 0 || thorough {
+            let runs = if thorough { 12 } else { 3 };
+            for _ in 0..runs {
+                if len < 4 {
+                    break;
+                }
+                let start = rng.usize_below(len);
+                let run = (rng.range(2, 700) as usize).min(len - start);
+                let garbage = rng.bytes(run);
+                if rng.chance(0.5) {
+                    mutations.push((start, format!("zero run of {run}"), Box::new(move |b: &mut Vec<u8>| b[start..start + run].iter_mut().for_each(|x| *x = 0))));
+                } else {
+                    mutations.push((start, format!("garbage run of {run}"), Box::new(move |b: &mut Vec<u8>| b[start..start + run].copy_from_slice(&garbage))));
+                }
+            }
+        }
         if class == PathClass::Table && thorough {
             for cut in (0..len).filter(|o| (*o as u64) % SLICES == slice) {
                 mutations.push((cut, "truncate".into(), Box::new(move |b: &mut Vec<u8>| b.truncate(cut))));
